@@ -60,6 +60,10 @@ fn max_overlap(snap: &Snapshot, n: usize, leaders: &[usize]) -> Vec<usize> {
 
 pub fn main(tier: Tier, seed: u64) -> i32 {
     let mut rep = Report::new("C17", tier, seed, "model_checking");
+    if let Err(e) = crate::srvx::selftest(seed) {
+        rep.machinery(e);
+        return rep.finish();
+    }
     let mut batches = vec![];
     let mut salt = 0;
     for k in if tier.is_thorough() { vec![1usize, 2, 3, 4, 6, 8] } else { vec![1, 2, 3, 4] } {
